@@ -52,6 +52,8 @@ def _case(draw, tier):
             assign.append({"id": draw(st.sampled_from([None, 0, 0, 1, 1, 2])), "pos": draw(st.integers(-3, 3)),
                            "side": draw(st.sampled_from(["hv", "lv"] if e["t"] == "trafo" else ["hv", "mv", "lv"]))})
     table = {str(i): {"dr": draw(netgen.q(0.002, 0.02, nd=3)), "da": draw(st.sampled_from([0.0, 0.0, 0.5, 2.0])),
+                      # a measured table need not be (1, 0 degree) at the neutral step
+                      "r0": draw(st.sampled_from([1.0, 1.0, 1.012, 0.985])), "a0": draw(st.sampled_from([0.0, 0.0, 0.4])),
                       "vk0": draw(netgen.q(5.0, 14.0, nd=1)), "dvk": draw(netgen.q(0.0, 0.5, nd=2)),
                       "vkr0": draw(netgen.q(0.2, 1.0, nd=2))} for i in range(3)}
     return {"recipe": recipe, "assign": assign, "table": table,
@@ -64,7 +66,7 @@ def strategy(tier):
 
 def row(table, i, step):
     t = table[str(i)]
-    return {"voltage_ratio": 1 + t["dr"] * step, "angle_deg": t["da"] * step, "vk": t["vk0"] + t["dvk"] * step,
+    return {"voltage_ratio": t.get("r0", 1.0) + t["dr"] * step, "angle_deg": t.get("a0", 0.0) + t["da"] * step, "vk": t["vk0"] + t["dvk"] * step,
             "vkr": t["vkr0"] * (1 + 0.05 * step)}
 
 
@@ -166,4 +168,6 @@ def check(case):
     res.label("table-trafos:%d" % min(len(used), 4))
     if any(case["table"][str(i)]["da"] for i in ids):
         res.label("table-angle")
+    if any(pos == 0 and (case["table"][str(i)].get("r0", 1.0) != 1.0 or case["table"][str(i)].get("a0", 0.0) != 0.0) for _, i, pos in used):
+        res.label("neutral-step-with-offnominal-row")
     return res
